@@ -53,3 +53,20 @@ PREDICATES = {}
 def predicate(fn):
     PREDICATES[fn.__name__] = fn
     return fn
+
+
+def _has_moveless_subpath(cmds):
+    """A drawing command directly after a close: a subpath without its own move."""
+    for i in range(1, len(cmds)):
+        prev, cur = cmds[i - 1], cmds[i]
+        if (prev["c"] in "Zz" or prev.get("zc")) and cur["c"] not in "MmZz":
+            return True
+    return False
+
+
+@predicate
+def c16_view_reverse_detaches_moveless_subpath(case, od):
+    sig = od.get("sig") or []
+    if len(sig) < 2 or sig[0] not in ("sub", "stale") or sig[1] != "implicit-start":
+        return False
+    return _has_moveless_subpath(case.get("cmds", []))
